@@ -1085,6 +1085,8 @@ pub fn main(args: Args) -> i32 {
             ("macro_fails_deep_inside", "{% macro cal() %}{% with z = 1 %}{% for q in [1, 2] %}{% set cap %}{% filter upper %}{% autoescape true %}{{ 1 // 0 }}{% endautoescape %}{% endfilter %}{% endset %}{% endfor %}{% endwith %}{% endmacro %}", "attempt(cal)"),
             ("macro_fails_in_nested_macro", "{% macro inner() %}{% for q in [1] %}{{ [] | first | int // 0 }}{% endfor %}{% endmacro %}{% macro cal() %}{% with z = 1 %}{{ inner() }}{% endwith %}{% endmacro %}", "attempt(cal)"),
             ("macro_recursing_to_the_limit", "{% macro cal(n=0) %}{% with z = n %}{{ cal(n + 1) }}{% endwith %}{% endmacro %}", "attempt(cal)"),
+            ("macro_fails_with_autoescape_off", "{% macro cal() %}{% autoescape false %}{% set cap %}{{ lt }}{{ 1 // 0 }}{% endset %}{% endautoescape %}{% endmacro %}", "attempt(cal)"),
+            ("macro_fails_with_autoescape_on_in_loop", "{% macro cal() %}{% for q in [1, 2] %}{% autoescape 'html' %}{% filter upper %}{{ lt }}{{ [][q] // 0 }}{% endfilter %}{% endautoescape %}{% endfor %}{% endmacro %}", "attempt(cal)"),
             ("block_fails", "", "attempt_block('bad')"),
             ("block_ok", "", "attempt_block('good')"),
             ("macro_with_break_path", "{% macro cal() %}{% for q in [1, 2] %}{% with z = q %}{% if q == 2 %}{{ 1 // 0 }}{% endif %}{% endwith %}{% endfor %}{% endmacro %}", "attempt(cal)"),
@@ -1095,7 +1097,8 @@ pub fn main(args: Args) -> i32 {
             ("macro_body", "{% macro host(p) %}{% with a = p %}@|{{ a }}|{{ p }}|{{ top }}{% endwith %}{% endmacro %}{{ host('P') }}", "%|P|P|T"),
             ("call_block_in_loop", "{% macro cw() %}({{ caller() }}){% endmacro %}{% for i in [1, 2] %}{% call cw() %}@{{ i }}{{ loop.index }}{% endcall %}{% endfor %}", "(%11)(%22)"),
             ("autoescape_in_if", "{% if top %}{% autoescape true %}@{{ lt }}{% endautoescape %}{{ lt }}{% endif %}", "%&lt;<"),
-            ("plain", "@|{{ top }}", "%|T"),
+            ("plain", "@|{{ top }}{{ lt }}", "%|T<"),
+            ("autoescape_off_in_on", "{% autoescape true %}{{ lt }}{% autoescape false %}@{{ lt }}{% endautoescape %}{{ lt }}{% endautoescape %}{{ lt }}", "&lt;%<&lt;<"),
         ];
         let mut cases: Vec<(String, String, String, usize)> = vec![];
         for (cname, cdef, ccall) in CALLEES {
